@@ -388,7 +388,7 @@ def synthesizable(t):
 # ------------------------------------------------------------------------------------------------
 # argument bundles
 # ------------------------------------------------------------------------------------------------
-PLAIN, MASKED, UNMASKED_LEN, MASKED_UNMASKED_LEN = "plain", "masked", "unmasked-length", "masked-with-unmasked-length"
+PLAIN, MASKED, UNMASKED_LEN, MASKED_UNMASKED_LEN, ALIAS0 = "plain", "masked", "unmasked-length", "masked-with-unmasked-length", "same-object-as-first-argument"
 
 
 def mask_for(n, m):
@@ -428,6 +428,8 @@ class Bundle:
                     else:
                         mk, sl = self.mask, self.sel
                     self.protos.append(("marr", make_array(st, m, k, nonzero), mk, sl))
+                elif kind == ALIAS0:
+                    self.protos.append(("alias0",))  # the very object passed as the first array argument (a.op(a), a += a)
                 elif kind == UNMASKED_LEN:
                     self.protos.append(("arr", make_array(st, m, k, nonzero)))
                 elif kind == MASKED_UNMASKED_LEN:
@@ -440,6 +442,7 @@ class Bundle:
                 ai += 1
             else:
                 self.protos.append(("scalar", make_scalar(st, 5, k, True), (st, 5, k)))
+        self.first_array_index = next((i for i, p in enumerate(self.protos) if p[0] in ("arr", "marr")), 0)
         if runs:
             self.make_runs()
 
@@ -462,7 +465,9 @@ class Bundle:
     def instantiate(self):
         args, keep = [], []
         for p in self.protos:
-            if p[0] == "arr":
+            if p[0] == "alias0":
+                args.append(args[self.first_array_index])
+            elif p[0] == "arr":
                 a = p[1][:]; args.append(a); keep.append(a)      # a[:] is a deep copy (the copy constructor shares storage)
             elif p[0] == "marr":
                 b = p[1][:]; v = b[p[2]]; args.append(v); keep.append(b)
@@ -478,6 +483,8 @@ class Bundle:
         """arguments of the scalar binding for position i (None if an argument has no per-element meaning)"""
         out = []
         for p in self.protos:
+            if p[0] == "alias0":
+                p = self.protos[self.first_array_index]
             if p[0] == "arr":
                 if len(p[1]) == self.n:
                     out.append(p[1][i])
@@ -513,6 +520,11 @@ def kind_combos(e, quick):
         combos += [tuple(MASKED if j == i else PLAIN for j in range(k)) for i in range(k)]
         combos += [tuple(PLAIN if j == i else MASKED for j in range(k)) for i in range(k)]
         combos += [(MASKED,) * k]
+    # the second array argument is the SAME OBJECT as the first (a.op(a), a += a), when their types agree
+    arr_types = [strip_t(t) for t in e.args if strip_t(t).startswith("PyImath::FixedArray<")]
+    if k >= 2 and arr_types[0] == arr_types[1]:
+        combos.append((PLAIN, ALIAS0) + (PLAIN,) * (k - 2))
+        combos.append((MASKED, ALIAS0) + (PLAIN,) * (k - 2))
     # in-place member op with masked self and a right-hand side of the UNMASKED length (maskable member functions)
     if k >= 2 and e.owner and e.name.startswith("__i") and strip_t(e.args[0]).startswith("PyImath::FixedArray<"):
         combos.append((MASKED, UNMASKED_LEN) + (PLAIN,) * (k - 2))
